@@ -43,6 +43,10 @@ def restore : List (Loc × Val) → (Loc → Val) → (Loc → Val)
 /-- `SetPointerPlugin::postTestAction` -/
 def postAction (s : Store) : Store := { mem := restore s.table s.mem, table := [] }
 
+/-- `SetPointerPlugin::SetPointerPlugin`: constructing a plugin object sets `pointerTableIndex = 0`
+    (whatever was recorded and not yet undone is forgotten; the memory is not touched) -/
+def construct (s : Store) : Store := { s with table := [] }
+
 /-- statements of a scripted test body -/
 inductive Stmt
   | set (l : Loc) (v : Val)      -- UT_PTR_SET
